@@ -167,8 +167,13 @@ where
         let mut info = component::StreamInfo::new(sample_rate, channels, bits_per_sample)?;
         info.set_total_samples(total_samples);
         info.set_md5_digest(md5.try_into().expect("Internal error"));
-        info.set_block_sizes(min_block_size as usize, max_block_size as usize)?;
-        info.set_frame_sizes(min_frame_size as usize, max_frame_size as usize)?;
+        // The bounds of a stream without frames are the (inverted) initial values,
+        // which `StreamInfo::verify` accepts but the checked setters do not.
+        info.set_raw_bounds(
+            (min_block_size, max_block_size),
+            (min_frame_size, max_frame_size),
+        );
+        crate::error::Verify::verify(&info)?;
         let ret: Result<_, VerifyError> = Ok(info);
         ret
     };
